@@ -273,6 +273,37 @@ def p_constructed_names(e, arg):
     e.explore(prog, 'constructed_names')
 
 
+def p_capacity(e, arg):
+    """The real constructor at the capacity limits of a naming convention: it completes with distinct well-formed names exactly
+    when the numbers of nodes, columns and layers fit the convention's name space, and raises NamingConventionError (nothing
+    else, no truncated or duplicate name) when they do not."""
+    (nx, ny, nz), conv = arg
+    tag = '[%dx%dx%d,conv%d]' % (nx, ny, nz, conv)
+    letters3, letters2 = 26 + 26 ** 2 + 26 ** 3, 26 + 26 ** 2
+    cap_col, cap_lay = {0: (letters3, 99), 1: (99, letters3), 2: (999, letters2), 3: (letters3, letters2)}[conv]
+    fits = (nx + 1) * (ny + 1) <= cap_col and nx * ny <= cap_col and nz <= cap_lay
+    def prog(e):
+        m = e.load_module('mulgrids').globals
+        dx = [e.sym_real('dx%d' % k) for k in range(nx)]; dy = [e.sym_real('dy%d' % k) for k in range(ny)]; dz = [e.sym_real('dz%d' % k) for k in range(nz)]
+        for v in dx + dy + dz:
+            e.assume(v > 0)
+        try:
+            geo = e.call(e.getattr(e.call(m['mulgrid'], []), 'rectangular'), [dx, dy, dz], {'atmos_type': 0, 'convention': conv})
+        except PyExc as ex:
+            e.prove(ex.cls == 'NamingConventionError' and not fits, 'post:naming_error_exactly_when_the_name_space_is_exhausted' + tag, 'raises %s: %s' % (ex.cls, ex.msg))
+            return
+        e.prove(fits, 'post:naming_error_exactly_when_the_name_space_is_exhausted' + tag, 'completed although the name space is exhausted')
+        f = geo.fields
+        names = f['block_name_list']
+        cn = [c.fields['name'] for c in f['columnlist']]; ln = [l.fields['name'] for l in f['layerlist']]; nn = [n.fields['name'] for n in f['nodelist']]
+        e.prove(len(names) == 1 + nx * ny * nz and len(set(names)) == len(names) and all(len(n) == 5 for n in names) and
+                len(set(cn)) == len(cn) and len(set(ln)) == len(ln) and len(set(nn)) == len(nn) and all(len(x) == f['colname_length'] for x in cn + nn) and all(len(x) == f['layername_length'] for x in ln),
+                'post:names_distinct_and_well_formed_at_the_capacity_limit' + tag)
+    e.explore(prog, 'capacity')
+
+
+CAPACITY = [((48, 1, 2), 1), ((49, 1, 2), 1), ((99, 1, 2), 1), ((100, 1, 2), 2), ((2, 1, 99), 0), ((2, 1, 100), 0), ((2, 1, 27), 3), ((9, 10, 2), 1), ((10, 10, 2), 1)]
+PROGRAMS += [('p_capacity', a) for a in CAPACITY]
 PROGRAMS += [('p_constructed_names', (shape, conv, atm, j, c)) for shape in ((3, 2, 3), (12, 1, 2)) for conv in range(4) for atm in (0, 1, 2) for (j, c) in (('r', None), ('l', 'u'))]
 
 
@@ -280,6 +311,15 @@ PROGRAMS += [('p_constructed_names', (shape, conv, atm, j, c)) for shape in ((3,
 
 def replay(obname, model, result):
     m = model or {}
+    if result['program'] == 'p_capacity':
+        (nx, ny, nz), conv = result['arg']
+        return ("from mulgrids import *\nletters3, letters2 = 26 + 26 ** 2 + 26 ** 3, 26 + 26 ** 2\n"
+                "nx, ny, nz, conv = %d, %d, %d, %d\ncap_col, cap_lay = {0: (letters3, 99), 1: (99, letters3), 2: (999, letters2), 3: (letters3, letters2)}[conv]\n"
+                "fits = (nx + 1) * (ny + 1) <= cap_col and nx * ny <= cap_col and nz <= cap_lay\n"
+                "try:\n    g = mulgrid().rectangular([10.] * nx, [8.] * ny, [5.] * nz, convention=conv, atmos_type=0)\n"
+                "    n = g.block_name_list; ok = fits and len(set(n)) == len(n) and all(len(x) == 5 for x in n); detail = 'completed with %%d names, name space %%s' %% (len(n), 'sufficient' if fits else 'exhausted')\n"
+                "except NamingConventionError as ex:\n    ok, detail = (not fits), 'NamingConventionError: %%s (name space %%s)' %% (ex, 'sufficient' if fits else 'exhausted')\n"
+                "except Exception as ex:\n    ok, detail = False, '%%s: %%s' %% (type(ex).__name__, ex)\n") % (nx, ny, nz, conv)
     if result['program'] == 'p_constructed_names':
         (nx, ny, nz), conv, atm, justify, case = result['arg']
         return ("from mulgrids import *\ng = mulgrid().rectangular([10. + k for k in range(%d)], [8. + k for k in range(%d)], [5. + k for k in range(%d)], convention=%d, atmos_type=%d, justify=%r, case=%r)\n"
